@@ -121,6 +121,12 @@ type encIgnored struct {
 	Paths []string `class:"secret"`
 }
 
+// named types that no payload uses; their underlying types are those of ordinary payload fields
+type encNamedBytes []byte
+type encNamedStrings []string
+type encNamedMap map[string]interface{}
+type encNamedStringMap map[string]string
+
 // encTagMap is a Taggable map.
 type encTagMap map[string]interface{}
 
@@ -1261,6 +1267,13 @@ func runEncrypt(rc *RunCtx, prop string) {
 	if withIgnored {
 		f.IgnoreTypes = []reflect.Type{reflect.TypeOf(&encIgnored{})}
 	}
+	if tp.Choose(3, "ignore-lookalike-types") == 0 {
+		// listed types that NO value of any payload has: named types whose underlying types are those of
+		// ordinary fields, and an interface type that no field is declared with. (Not interface{}: a field
+		// declared interface{} IS of that type, and listing it exempts such fields -- what was asked for.)
+		f.IgnoreTypes = append(f.IgnoreTypes, reflect.TypeOf(encNamedBytes(nil)), reflect.TypeOf(encNamedStrings(nil)), reflect.TypeOf(encNamedMap(nil)),
+			reflect.TypeOf(encNamedStringMap(nil)), reflect.TypeOf((*fmt.Stringer)(nil)).Elem())
+	}
 	if prop == "C16" && tp.Choose(3, "ignore-rotation-type") == 0 {
 		// IgnoreTypes exempts values from FILTERING; a rotation payload of a listed type is still a rotation
 		f.IgnoreTypes = append(f.IgnoreTypes, reflect.TypeOf(&encRotate{}))
@@ -1355,6 +1368,8 @@ func runEncrypt(rc *RunCtx, prop string) {
 				payload, top = encBadTag{"x": g.canary("redact", "badtag{}")}, "taggable-bad-pointer"
 			case useInfo:
 				info = &encWithInfo{encLeaf: g.leaf("*withinfo"), evID: fmt.Sprintf("ev-%d", i)}
+				// (an event id is an opaque string: white space around it belongs to it and to the derived key)
+				info.evID = []string{"", "", "", " ", "\t"}[tp.Choose(5, "evid-prefix")] + info.evID + []string{"", "", " ", "\n", "\u00a0"}[tp.Choose(5, "evid-suffix")]
 				if d.next(2) == 0 {
 					info.Body = g.outer("*withinfo.Body", 1)
 				}
